@@ -144,6 +144,14 @@ namespace fastscapelib
         }
 
         /**
+         * Returns the algorithm used to compute the reduced tree of basins.
+         */
+        inline mst_method basin_method() const
+        {
+            return m_mst_method;
+        }
+
+        /**
          * Returns the total number of basins.
          */
         inline size_type basins_count() const
